@@ -89,13 +89,22 @@ class _Return(Exception):
         self.v = v
 
 
-BUILTINS = {'str', 'int', 'len', 'abs', 'isinstance', 'tuple', 'bool', 'ValueError', 'Exception',
+class _Break(Exception):
+    pass
+
+
+class _Continue(Exception):
+    pass
+
+
+BUILTINS = {'range', 'enumerate', 'str', 'int', 'len', 'abs', 'isinstance', 'tuple', 'bool', 'ValueError', 'Exception',
             'KeyError', 'NotImplementedError', 'TypeError', 'list', 'sorted', 'set', 'min', 'max'}
 
 
 class Folder:
-    def __init__(self, repo: Repo, max_steps: int = 20000):
+    def __init__(self, repo: Repo, max_steps: int = 20000, allow_loops: bool = False):
         self.repo = repo
+        self.allow_loops = allow_loops
         self.steps = 0
         self.max_steps = max_steps
 
@@ -286,6 +295,36 @@ class Folder:
                     raise FoldRaise('AssertionError', ast.unparse(st.test))
             elif isinstance(st, ast.Pass):
                 continue
+            elif isinstance(st, ast.While) and self.allow_loops:
+                while self._truth(self._eval(st.test, env, mod, ci)):
+                    try:
+                        self._block(st.body, env, mod, ci)
+                    except _Break:
+                        break
+                    except _Continue:
+                        continue
+                else:
+                    self._block(st.orelse, env, mod, ci)
+            elif isinstance(st, ast.For) and self.allow_loops:
+                it = self._eval(st.iter, env, mod, ci)
+                if not isinstance(it, (list, tuple, range, str)):
+                    raise Unsupported('for over ' + type(it).__name__)
+                broke = False
+                for x in it:
+                    self._assign(st.target, x, env)
+                    try:
+                        self._block(st.body, env, mod, ci)
+                    except _Break:
+                        broke = True
+                        break
+                    except _Continue:
+                        continue
+                if not broke:
+                    self._block(st.orelse, env, mod, ci)
+            elif isinstance(st, ast.Break) and self.allow_loops:
+                raise _Break()
+            elif isinstance(st, ast.Continue) and self.allow_loops:
+                raise _Continue()
             else:
                 raise Unsupported(f'statement {type(st).__name__} in folded function')
 
@@ -567,6 +606,10 @@ class Folder:
                 return list(args[0])
             if n in ('min', 'max'):
                 return (min if n == 'min' else max)(*args)
+            if n == 'range':
+                return range(*args)
+            if n == 'enumerate':
+                return list(enumerate(*args))
             if n == 'isinstance':
                 v, c = args
                 if isinstance(c, ClsRef):
